@@ -13,6 +13,8 @@ pub enum Kind {
     PI,
     /// text that consists of a reference to an entity declared in the DOCTYPE (`&e;`)
     Ent,
+    /// an empty CDATA section `<![CDATA[]]>` (a CDATA node without content)
+    CDataEmpty,
 }
 
 impl Kind {
@@ -27,6 +29,7 @@ impl Kind {
             Kind::Comment => Item::Comment("k".into()),
             Kind::PI => Item::PI("p q".into()),
             Kind::Ent => Item::Text("&e;".into()),
+            Kind::CDataEmpty => Item::CData(String::new()),
         }
     }
 }
